@@ -22,7 +22,7 @@ ASSUMPTIONS = ['only bundles that succeeded are undone, in strict reverse order 
                'involving CircularRefError (cycles through lookups) are not judged',
                'generators follow DESIGN.md 2.7; summary group-by columns have a concrete (non-Any) type']
 BUDGET = {'quick': dict(examples=800, shards=16, max_seconds=75),
-          'thorough': dict(examples=6000, shards=16, max_seconds=1800)}
+          'thorough': dict(examples=2400, shards=16, max_seconds=1800)}
 SHRINK_BUDGET = {'quick': 60, 'thorough': 400}
 
 
